@@ -444,6 +444,9 @@ def gen_sample(R, rng):
             key = (z, 0, 0)
         else:
             key = (z, rng.choice([a for zz, a in R.isotopes if zz == z]), 0)
+        ions = [q for q in R.pt.elements[z].ions if q]
+        if ions and rng.random() < 0.2:   # an ion: the charge state must not matter
+            key = (key[0], key[1], rng.choice(ions))
         parts.append((rng.choice([1, 2, 3, 0.5, 7, 30, 1.25]), key))
     if rng.random() < 0.25:               # the same element again, as an isotope or natural
         z = parts[0][1][0]
@@ -470,6 +473,8 @@ def check_samples(run: Run, R, n, activation):
         env = activation.ActivationEnvironment(fluence=fl, Cd_ratio=cd, fast_ratio=fr)
         parts = []
         for el, frac in f.mass_fraction.items():
+            if core.ision(el):
+                el = el.element
             if core.isisotope(el):
                 parts.append((frac, [(el.number, el.isotope, None)]))
             else:
